@@ -24,7 +24,7 @@ def pick_value(rng):
 class RbufGen:
     name = "rbuf"
 
-    def small_scope(self, tier):
+    def small_scope(self, tier, focus=None):
         out = []
         maxlen = 7 if tier == "quick" else 10
         for cap in (1, 2, 3):
@@ -46,7 +46,7 @@ class RbufGen:
         out.append(["new_default", "enqueue 1", "dequeue", "dequeue", "destroy"])
         return out
 
-    def random(self, rng, n, tier):
+    def random(self, rng, n, tier, focus=None):
         out = []
         for _ in range(n):
             cap = rng.choice([1, 2, 3, 4, 5, 7, 8, 10, 12])
@@ -67,3 +67,14 @@ class RbufGen:
 
 
 GENS = {g.name: g for g in [RbufGen()]}
+
+# every tools/gens_<k>.py registers itself through a module-level GEN (or GENS list)
+import importlib, pathlib, sys as _sys
+for _p in sorted(pathlib.Path(__file__).resolve().parent.glob("gens_*.py")):
+    try:
+        _m = importlib.import_module(_p.stem)
+    except Exception as _e:   # a generator under construction must not break the other checks
+        print(f"gens: cannot import {_p.name}: {_e}", file=_sys.stderr)
+        continue
+    for _g in ([getattr(_m, "GEN")] if hasattr(_m, "GEN") else []) + list(getattr(_m, "GENS", [])):
+        GENS[_g.name] = _g
